@@ -151,6 +151,31 @@ template <class T> static void elastic_real(uint64_t seed, int n) {
       for (int i = 0; i < 6; i++) { if (!std::isfinite((long double)out[i])) { nonfinite++; continue; } worst = std::max(worst, (double)(std::fabs(out[i] - e[i]) / big / std::numeric_limits<T>::epsilon()) / kappa); } cnt++; }
     printf("{\"e\":\"Compose\",\"model\":\"%s\",\"num\":\"%s\",\"n\":%ld,\"nonfinite\":%ld,\"err_eps_kappa\":%ld}\n", which ? "incompressible" : "compressible", NN<T>::c, cnt, nonfinite, (long)std::ceil(std::min(worst, 1e9))); }
 }
+// ---- numeric layer, every (model numeric type, overload numeric type) combination: real-valued tensors and materials with full mantissas;
+// reference in __float128 from the STORED parameters; distance in ulps of the OVERLOAD's type at the scale of the largest term (no credit
+// for cancellation).  model: 0 elastic, 1 compressible, 2 incompressible; fn: 0 forward (stress), 1 inverse (strain / strain rate).
+template <class TO> static double ulps_at(Qd got, Qd want, Qd scale) { if (scale == 0) return got == want ? 0 : 1e18; int e; frexpq(scale, &e); return (double)(fabsq(got - want) / ldexpq((Qd)1, e - std::numeric_limits<TO>::digits)); }
+template <class TM, class TO> static void maps_real(uint64_t seed, int n) {
+  std::mt19937_64 g(seed * 977 + sizeof(TM) * 31 + sizeof(TO)); std::uniform_real_distribution<double> U(0, 1); auto UV = Unit::DynamicViscosity::PascalSecond;
+  auto full = [&](int lo, int hi) { long double m = 1.0L + (long double)(g() >> 11) / (long double)(1ULL << 53) + std::ldexp((long double)(g() & 2047), -64); return std::ldexp(m, lo + (int)(g() % (unsigned)(hi - lo + 1))); };
+  for (int model = 0; model < 3; model++) for (int fn = 0; fn < 2; fn++) for (int via = 0; via < 2; via++) { double worst = 0; long cnt = 0, nonfinite = 0; long double wit = 0;
+    for (int t = 0; t < n; t++) { TM a = (TM)full(-12, 12); TM b = model == 2 ? (TM)0 : (TM)((long double)a * (0.1L + 3.0L * (long double)U(g)));      // a = mu ; b = lambda or bulk viscosity
+      Solid<TM> so(ShearModulus<TM>(a, PA), LameFirstModulus<TM>(b, PA)); CFluid<TM> cf(DynamicViscosity<TM>(a, UV), BulkDynamicViscosity<TM>(b, UV)); IFluid<TM> inf(DynamicViscosity<TM>(a, UV));
+      const ConstitutiveModel& base = model == 0 ? (const ConstitutiveModel&)so : model == 1 ? (const ConstitutiveModel&)cf : (const ConstitutiveModel&)inf;
+      TO x[6]; int ex = (int)(g() % 21) - 10; for (auto& v : x) v = (TO)(full(ex, ex) * ((g() & 1) ? 1 : -1)); SymmetricDyad<TO> X(x[0], x[1], x[2], x[3], x[4], x[5]);
+      std::vector<TO> out; Qd A = (Qd)a, B = (Qd)b; Qd tr = (Qd)x[0] + (Qd)x[3] + (Qd)x[5], atr = fabsq((Qd)x[0]) + fabsq((Qd)x[3]) + fabsq((Qd)x[5]);
+      Qd c1, c2;                                                               // result = c1 * X + c2 * tr(X) * I
+      if (fn == 0) { c1 = 2 * A; c2 = B; } else { c1 = 1 / (2 * A); c2 = -B / (2 * A * (2 * A + 3 * B)); }
+      if (model == 0) { if (fn == 0) { Strain<TO> in(X); out = c6((via ? base.Stress(in) : so.Stress(in)).Value()); } else { Stress<TO> in(X, PA); out = c6((via ? base.Strain(in) : so.Strain(in)).Value()); } }
+      else { if (fn == 0) { StrainRate<TO> in(X, Unit::Frequency::Hertz); out = c6((via ? base.Stress(in) : model == 1 ? cf.Stress(in) : inf.Stress(in)).Value()); }
+             else { Stress<TO> in(X, PA); out = c6((via ? base.StrainRate(in) : model == 1 ? cf.StrainRate(in) : inf.StrainRate(in)).Value()); } }
+      static const int diag[6] = {1, 0, 0, 1, 0, 1};
+      for (int i = 0; i < 6; i++) { if (!std::isfinite((long double)out[i])) { nonfinite++; continue; } Qd want = c1 * (Qd)x[i] + (diag[i] ? c2 * tr : (Qd)0), scale = fabsq(c1 * (Qd)x[i]) + (diag[i] ? fabsq(c2) * atr : (Qd)0);
+        double u = ulps_at<TO>((Qd)out[i], want, scale); if (u > worst) { worst = u; wit = (long double)x[i]; } } cnt++; }
+    printf("{\"e\":\"MapReal\",\"model\":\"%s\",\"fn\":\"%s\",\"num\":\"%s\",\"ov\":\"%s\",\"via\":\"%s\",\"n\":%ld,\"nonfinite\":%ld,\"ulps\":%ld,\"witness\":\"%La\"}\n", model == 0 ? "elastic" : model == 1 ? "compressible" : "incompressible",
+           fn ? "inverse" : "forward", NN<TM>::c, NN<TO>::c, via ? "base" : "direct", cnt, nonfinite, (long)std::ceil(std::min(worst, 1e9)), wit); }
+}
+template <class TM> static void maps_real_for(uint64_t seed, int n) { maps_real<TM, float>(seed, n); maps_real<TM, double>(seed, n); maps_real<TM, long double>(seed, n); }
 template <class TM> static void exact_for_model(std::mt19937_64& g) {
   elastic_maps_exact<TM, float>(g); elastic_maps_exact<TM, double>(g); elastic_maps_exact<TM, long double>(g);
   fluid_maps_exact<TM, float>(g); fluid_maps_exact<TM, double>(g); fluid_maps_exact<TM, long double>(g); }
@@ -159,6 +184,6 @@ int main(int argc, char** argv) {
   if (mode == "exact") { elastic_ctor_exact<float>(); elastic_ctor_exact<double>(); elastic_ctor_exact<long double>();
     exact_for_model<float>(g); exact_for_model<double>(g); exact_for_model<long double>(g); one_arg<float>(); one_arg<double>(); one_arg<long double>(); }
   else if (mode == "cmp") { model_cmp<float>(g, n); model_cmp<double>(g, n); model_cmp<long double>(g, n); }
-  else { elastic_real<float>(seed, n); elastic_real<double>(seed, n); elastic_real<long double>(seed, n); }
+  else { elastic_real<float>(seed, n); elastic_real<double>(seed, n); elastic_real<long double>(seed, n); maps_real_for<float>(seed, n); maps_real_for<double>(seed, n); maps_real_for<long double>(seed, n); }
   return 0;
 }
